@@ -3,6 +3,8 @@ package amp
 // C11 (a), (e): AMP URL path codec and the cache domain prefix.
 
 import (
+	"net/url"
+
 	"git.torproject.org/pluggable-transports/snowflake.git/v2/internal/verifapi"
 )
 
@@ -101,4 +103,75 @@ func VerifC11_FallbackLabel() {
 	j := verifapi.Concrete(verifapi.Choice("j", 52))
 	c := got[j]
 	verifapi.Assert((c >= 'a' && c <= 'z') || (c >= '2' && c <= '7'), "the fallback prefix is lower-case base32: no dot, a valid DNS label")
+}
+
+// ---- CacheURL: documented rejections and the wiring of the result ---------------------------
+
+var (
+	verifPubPort, verifCachePort string
+	verifPubHost                 string
+)
+
+func verifHostname11(u *url.URL) string { return u.Host } // the harness puts the bare hostname in Host
+func verifPort11(u *url.URL) string {
+	if u.Scheme == "cache" {
+		return verifCachePort
+	}
+	return verifPubPort
+}
+func verifEscapedPath11(u *url.URL) string {
+	if u.Scheme == "cache" {
+		return "/cachepath"
+	}
+	return "/pubpath"
+}
+func verifPathEscape11(s string) string            { return "esc(" + s + ")" }
+func verifPathUnescape11(s string) (string, error) { return "unesc:" + s, nil }
+func verifDomainPrefix11(domain string) string     { return "PREFIX" }
+
+func VerifC11_CacheURL() {
+	schemes := [3]string{"http", "https", "ftp"}
+	pub := &url.URL{Scheme: schemes[verifapi.Concrete(verifapi.Choice("pub.scheme", 3))], Host: "pub.example", RawQuery: "q=" + verifapi.String("pub.query", 2), Fragment: verifapi.String("pub.fragment", 2)}
+	if verifapi.Bool("pub.noHost") {
+		pub.Host = ""
+	}
+	if verifapi.Bool("pub.userinfo") {
+		pub.User = url.User("u")
+	}
+	verifPubPort = [4]string{"", "80", "443", "8080"}[verifapi.Concrete(verifapi.Choice("pub.port", 4))]
+	cache := &url.URL{Scheme: "cache", Host: "cdn.example", User: url.User("cacheuser")}
+	verifCachePort = [2]string{"", "8443"}[verifapi.Concrete(verifapi.Choice("cache.port", 2))]
+	if verifapi.Bool("cache.query") {
+		cache.RawQuery = "x"
+	}
+	if verifapi.Bool("cache.fragment") {
+		cache.Fragment = "f"
+	}
+	ct := "c"
+	if verifapi.Bool("emptyContentType") {
+		ct = ""
+	}
+	got, err := CacheURL(pub, cache, ct)
+	portOK := verifPubPort == "" || (pub.Scheme == "http" && verifPubPort == "80") || (pub.Scheme == "https" && verifPubPort == "443")
+	bad := ct == "" || pub.Scheme == "ftp" || pub.User != nil || !portOK || pub.Host == "" || cache.RawQuery != "" || cache.Fragment != ""
+	if bad {
+		verifapi.Cover("cache URL rejected")
+		verifapi.Assert(err != nil && got == nil, "an empty content type, a non-http(s) publisher, userinfo, a non-default port, an empty host, or a cache URL with query or fragment is rejected")
+		return
+	}
+	verifapi.Cover("cache URL built")
+	verifapi.Assert(err == nil && got != nil, "a well-formed publisher/cache pair yields a cache URL")
+	verifapi.Assert(got.Scheme == "cache" && got.User == cache.User, "scheme and userinfo come from the cache URL")
+	wantHost := "PREFIX.cdn.example"
+	if verifCachePort != "" {
+		wantHost = "PREFIX.cdn.example:8443"
+	}
+	verifapi.Assert(got.Host == wantHost, "the host is the domain prefix of the publisher, a dot, and the cache host (and port)")
+	verifapi.Assert(got.RawQuery == pub.RawQuery && got.Fragment == pub.Fragment, "query and fragment come from the publisher URL")
+	wantRaw := "/cachepath/esc(c)/esc(pub.example)/pubpath"
+	if pub.Scheme == "https" {
+		wantRaw = "/cachepath/esc(c)/s/esc(pub.example)/pubpath"
+	}
+	verifapi.Assert(got.RawPath == wantRaw, "the path is the cache path, /c, /s for https, the publisher host and the publisher's path")
+	verifapi.Assert(got.Path == "unesc:"+wantRaw, "Path is the unescaped RawPath")
 }
